@@ -10,6 +10,7 @@ mode "faults": {"cases": [{"cid":..., "base": id, "edits": [[var, attr, newvalue
                copies the base to a fresh file, applies the edits with netCDF4-python, reads the
                result with cfdm.read(warnings=False) and prints the observation.
 """
+import gc
 import hashlib
 import json
 import os
@@ -25,7 +26,8 @@ REF_ATTRS = (
     "bounds", "climatology", "coordinates", "cell_measures", "ancillary_variables",
     "grid_mapping", "formula_terms", "cell_methods", "geometry", "node_coordinates",
     "node_count", "part_node_count", "interior_ring", "nodes", "compress",
-    "sample_dimension", "instance_dimension", "external_variables",
+    "sample_dimension", "instance_dimension", "external_variables", "dimensions", "mesh",
+    "face_coordinates", "edge_coordinates", "face_node_connectivity", "edge_node_connectivity",
 )
 
 
@@ -196,19 +198,33 @@ def field_obs(f, full=True):
     return out
 
 
-def read_obs(path, only=None):
+def read_obs(path, only=None, kwargs=None, external=None):
+    """`external`: paths given to cfdm.read(external=...); their descriptors are counted too.
+    The cyclic garbage collector is off during the read, so that a dataset that is closed only
+    because a reference cycle was collected counts as left open."""
     row = {"exc": None, "msg": None, "fields": None}
+    kw = dict(kwargs or {})
+    if external is not None:
+        kw["external"] = list(external)
+    gc.collect()
+    gc.disable()
     try:
-        fs = cfdm.read(path, warnings=False)
-    except BaseException as e:  # noqa
-        row["exc"] = type(e).__name__
-        row["msg"] = str(e)[:300]
-        import traceback
-        tb = traceback.extract_tb(e.__traceback__)
-        row["where"] = [f"{os.path.basename(fr.filename)}:{fr.name}" for fr in tb[-3:]]
-        row["open_fds"] = open_fds(path)
-        return row
-    row["open_after_read"] = open_fds(path)
+        try:
+            fs = cfdm.read(path, warnings=False, **kw)
+        except BaseException as e:  # noqa
+            row["exc"] = type(e).__name__
+            row["msg"] = str(e)[:300]
+            import traceback
+            tb = traceback.extract_tb(e.__traceback__)
+            row["where"] = [f"{os.path.basename(fr.filename)}:{fr.name}" for fr in tb[-3:]]
+            del e, tb
+            row["open_fds"] = open_fds(path)
+            row["external_fds"] = [open_fds(x) for x in (external or []) if os.path.exists(x)]
+            return row
+        row["open_after_read"] = open_fds(path)
+        row["external_fds"] = [open_fds(x) for x in (external or []) if os.path.exists(x)]
+    finally:
+        gc.enable()
     try:
         row["fields"] = [field_obs(f, only is None or f.nc_get_variable(None) in only) for f in fs]
     except BaseException as e:  # noqa
@@ -220,22 +236,30 @@ def read_obs(path, only=None):
 
 
 def raw_content(path):
-    """What is in the file, seen through netCDF4-python only."""
+    """What is in the file, seen through netCDF4-python only (variables of sub-groups under
+    their absolute path)."""
     nc = netCDF4.Dataset(path)
     try:
-        out = {"dims": [[d, len(v), bool(v.isunlimited())] for d, v in nc.dimensions.items()],
-               "gattrs": {a: str(nc.getncattr(a)) for a in nc.ncattrs()},
-               "vars": []}
-        for vn, v in nc.variables.items():
-            is_char = v.dtype == np.dtype("S1")
-            is_str = v.dtype is str
-            attrs = {}
-            for a in v.ncattrs():
-                val = v.getncattr(a)
-                attrs[a] = val if isinstance(val, str) else None
-            out["vars"].append({"name": vn, "dims": list(v.dimensions), "char": bool(is_char),
-                                "string": bool(is_str), "attrs": attrs,
-                                "all_attrs": list(v.ncattrs())})
+        out = {"dims": [], "gattrs": {a: str(nc.getncattr(a)) for a in nc.ncattrs()}, "vars": [],
+               "groups": bool(nc.groups)}
+
+        def rec(g, prefix):
+            for d, v in g.dimensions.items():
+                out["dims"].append([prefix + d, len(v), bool(v.isunlimited())])
+            for vn, v in g.variables.items():
+                is_char = v.dtype == np.dtype("S1")
+                is_str = v.dtype is str
+                attrs = {}
+                for a in v.ncattrs():
+                    val = v.getncattr(a)
+                    attrs[a] = val if isinstance(val, str) else None
+                out["vars"].append({"name": prefix + vn, "dims": list(v.dimensions), "char": bool(is_char),
+                                    "string": bool(is_str), "attrs": attrs,
+                                    "all_attrs": list(v.ncattrs())})
+            for gn, gg in g.groups.items():
+                rec(gg, (prefix or "/") + gn + "/")
+
+        rec(nc, "")
         return out
     finally:
         nc.close()
@@ -291,8 +315,107 @@ def apply_variant(nc, name, info):
         nc.setncattr("external_variables", "areacella")
         old = dv.getncattr("cell_measures") + " " if "cell_measures" in dv.ncattrs() else ""
         dv.setncattr("cell_measures", old + "area: areacella")
+    elif name == "gathered":
+        # a second data variable compressed by gathering over the last two data dimensions
+        nc.createDimension("landpoint", 4)
+        n = len(nc.dimensions[ddims[-2]]) * len(nc.dimensions[ddims[-1]])
+        v = nc.createVariable("landpoint", "i4", ("landpoint",))
+        v.compress = " ".join(ddims[-2:])
+        v[...] = [1, n // 3, n // 2, n - 1]
+        d = nc.createVariable("gq", "f8", ddims[:-2] + ("landpoint",))
+        d.standard_name = "soil_temperature"
+        d.units = "K"
+        if "coordinates" in dv.ncattrs():
+            d.coordinates = dv.getncattr("coordinates")
+        d[...] = np.arange(np.prod(d.shape), dtype="f8").reshape(d.shape)
+    elif name == "string_scalar":
+        # two data variables sharing a string-valued scalar coordinate variable (a valid file)
+        v = nc.createVariable("region", str, ())
+        v[0] = "europe"
+        v.long_name = "region"
+        old = dv.getncattr("coordinates") + " " if "coordinates" in dv.ncattrs() else ""
+        dv.setncattr("coordinates", old + "region")
+        w = nc.createVariable("second_data", "f8", ddims)
+        w.long_name = "second data variable"
+        w.coordinates = dv.getncattr("coordinates")
+        w[...] = np.asarray(dv[...], dtype="f8") + 1
     else:
         raise ValueError(name)
+
+
+def make_ugrid(path):
+    """A small UGRID file: two triangular faces, four nodes, five edges; a face and an edge data variable."""
+    nc = netCDF4.Dataset(path, "w")
+    try:
+        nc.Conventions = "CF-1.11 UGRID-1.0"
+        for d, n in (("nnode", 4), ("nface", 2), ("nedge", 5), ("three", 3), ("two", 2), ("time", 2)):
+            nc.createDimension(d, n)
+        m = nc.createVariable("mesh", "i4", ())
+        m.cf_role = "mesh_topology"
+        m.topology_dimension = 2
+        m.node_coordinates = "node_x node_y"
+        m.face_node_connectivity = "face_nodes"
+        m.edge_node_connectivity = "edge_nodes"
+        m.face_coordinates = "face_x face_y"
+        for n, dim, vals, sn, u in (("node_x", "nnode", [0, 1, 1, 0], "longitude", "degrees_east"),
+                                    ("node_y", "nnode", [0, 0, 1, 1], "latitude", "degrees_north"),
+                                    ("face_x", "nface", [.7, .3], "longitude", "degrees_east"),
+                                    ("face_y", "nface", [.3, .7], "latitude", "degrees_north")):
+            v = nc.createVariable(n, "f8", (dim,))
+            v[...] = vals
+            v.standard_name = sn
+            v.units = u
+        v = nc.createVariable("face_nodes", "i4", ("nface", "three"))
+        v.cf_role = "face_node_connectivity"
+        v.start_index = 0
+        v[...] = [[0, 1, 2], [0, 2, 3]]
+        v = nc.createVariable("edge_nodes", "i4", ("nedge", "two"))
+        v.cf_role = "edge_node_connectivity"
+        v.start_index = 0
+        v[...] = [[0, 1], [1, 2], [2, 0], [2, 3], [3, 0]]
+        t = nc.createVariable("time", "f8", ("time",))
+        t.units = "days since 2000-01-01"
+        t.standard_name = "time"
+        t[...] = [0, 1]
+        d = nc.createVariable("ta", "f8", ("time", "nface"))
+        d.standard_name = "air_temperature"
+        d.units = "K"
+        d.mesh = "mesh"
+        d.location = "face"
+        d.coordinates = "face_x face_y"
+        d[...] = np.arange(4.).reshape(2, 2)
+        d = nc.createVariable("ua", "f8", ("time", "nedge"))
+        d.standard_name = "eastward_wind"
+        d.units = "m s-1"
+        d.mesh = "mesh"
+        d.location = "edge"
+        d[...] = np.arange(10.).reshape(2, 5)
+    finally:
+        nc.close()
+
+
+def make_external(path, spec, parent):
+    """An external file: variables spec["vars"] on the last two dimensions of the parent's data variable."""
+    src = netCDF4.Dataset(parent)
+    try:
+        dv = src.variables[spec["data"]]
+        dims = [(d, len(src.dimensions[d])) for d in dv.dimensions[-2:]]
+    finally:
+        src.close()
+    if spec.get("baddims"):
+        dims = [dims[0], ("zz_ext", 3)]
+    nc = netCDF4.Dataset(path, "w")
+    try:
+        nc.Conventions = "CF-1.11"
+        for d, n in dims:
+            nc.createDimension(d, n)
+        for nm in spec["vars"]:
+            v = nc.createVariable(nm, "f8", tuple(d for d, _ in dims))
+            v.units = "m2"
+            v.standard_name = "cell_area"
+            v[...] = np.ones(v.shape)
+    finally:
+        nc.close()
 
 
 def add_foreign(nc):
@@ -335,11 +458,25 @@ def add_extra(nc, specs):
 def make_base(spec, scratch):
     os.makedirs(os.path.join(scratch, "bases"), exist_ok=True)
     path = os.path.join(scratch, "bases", spec["id"] + ".nc")
+    if spec.get("ugrid"):
+        make_ugrid(path)
+        return path, "ta"
     f = cfdm.example_field(spec["example"])
     if spec.get("compress"):
         f = f.compress(spec["compress"])
+    if spec.get("groups"):
+        # the data variable two groups down, some of its constructs one group down
+        f.nc_set_variable_groups(["forecast", "model"])
+        for k in ("auxiliarycoordinate0", "cellmeasure0", "domainancillary2"):
+            if f.construct(k, default=None) is not None:
+                f.construct(k).nc_set_variable_groups(["forecast"])
+    if spec.get("domain"):
+        cfdm.write(f.domain, path)
+        return path, "domain"
     cfdm.write(f, path)
     data_ncvar = f.nc_get_variable()
+    if spec.get("groups"):
+        data_ncvar = "/forecast/model/" + data_ncvar
     if spec.get("variants"):
         nc = netCDF4.Dataset(path, "a")
         try:
@@ -364,7 +501,7 @@ def run_fault_case(case, scratch, wdir):
             if case.get("extra_vars"):
                 add_extra(nc, case["extra_vars"])
             for var, attr, new in case["edits"]:
-                tgt = nc if var is None else nc.variables[var]
+                tgt = nc if var is None else nc[var]
                 if new is None:
                     if attr in tgt.ncattrs():
                         tgt.delncattr(attr)
@@ -374,7 +511,20 @@ def run_fault_case(case, scratch, wdir):
             nc.close()
         if case.get("want_raw"):
             row["raw"] = raw_content(dst)
-        row["read"] = read_obs(dst, case.get("base_fields"))
+        external = None
+        if case.get("external") is not None:
+            external = []
+            for k, sp in enumerate(case["external"]):
+                xp = os.path.join(wdir, f"{case['cid']}_x{k}.nc")
+                if not sp.get("missing"):
+                    make_external(xp, sp, src)
+                external.append(xp)
+        row["read"] = read_obs(dst, case.get("base_fields"), kwargs=case.get("read_kwargs"), external=external)
+        for xp in external or []:
+            try:
+                os.remove(xp)
+            except OSError:
+                pass
     except BaseException as e:  # noqa
         row["error"] = f"{type(e).__name__}: {e}"[:400]
     try:
@@ -395,7 +545,7 @@ def main():
                 path, data_ncvar = make_base(spec, scratch)
                 row["data_ncvar"] = data_ncvar
                 row["raw"] = raw_content(path)
-                row["read"] = read_obs(path)
+                row["read"] = read_obs(path, kwargs=spec.get("read_kwargs"))
             except BaseException as e:  # noqa
                 row["error"] = f"{type(e).__name__}: {e}"[:400]
             print(json.dumps(row), flush=True)
